@@ -393,6 +393,10 @@ class MetadorGroup(MetadorNode):
     def __len__(self):
         return len(list(self.keys()))
 
+    def __reversed__(self):
+        # wrapt would forward this to the raw group, which also lists the internal nodes
+        return reversed(list(self.keys()))
+
     def __contains__(self, name: str):
         self._guard_path(name)
         if name[0] == "/" and self.name != "/":
